@@ -1,6 +1,6 @@
 (* C16 — shape of the generated cases and the two executable verdicts. No proofs. *)
 From VLib Require Import CaseLib.
-From C16 Require Import Model.
+From C16 Require Import Model ModelExt.
 
 Definition ids_eqb (a b : ids) : bool := key_eqb a b.
 Definition doc_eqb (a b : doc) : bool := key_eqb (fst a) (fst b) && N.eqb (snd a) (snd b).
@@ -220,6 +220,135 @@ Definition expected_doc (streams : list (src * list sdoc)) (k : ids) : doc :=
 Definition docs_complete (req : list ids) (streams : list (src * list sdoc)) (out : list doc) : bool :=
   list_eqb doc_eqb out (map (expected_doc streams) req).
 
+
+(* ------------------------------------------------------------------ extension: FetchDocsStream calls, direct
+   MergeQPRs, the assembled API response *)
+Definition is_nil {A} (l : list A) : bool := match l with [] => true | _ => false end.
+Definition is_ffail (c : fcall) : bool := match c with FFail => true | FStream _ => false end.
+Definition asked_eqb (a b : src * list id) : bool := Nat.eqb (fst a) (fst b) && list_eqb id_eqb (snd a) (snd b).
+
+(* exactly one Fetch call per source of the request; the i-th call was asked for exactly the IDs of its
+   source, in request order *)
+Definition calls_cover (req : list ids) (calls : list (src * fcall)) : bool :=
+  nodup_nat (map fst calls)
+  && forallb (fun k => memb Nat.eqb (snd k) (map fst calls)) req
+  && forallb (fun c => existsb (fun k => Nat.eqb (snd k) (fst c)) req) calls.
+Definition asked_ok (req : list ids) (calls : list (src * fcall)) (asked : list (src * list id)) : bool :=
+  list_eqb Nat.eqb (map fst asked) (map fst calls)
+  && forallb (fun a => list_eqb id_eqb (snd a) (map fst (filter (fun k => Nat.eqb (snd k) (fst a)) req))) asked.
+
+Fixpoint forallb2 {A B} (p : A -> B -> bool) (a : list A) (b : list B) : bool :=
+  match a, b with
+  | [], [] => true
+  | x :: a', y :: b' => p x y && forallb2 p a' b'
+  | _, _ => false
+  end.
+
+(* the property's last sentence for one FetchDocsStream: an error exactly when every call failed (and
+   something was asked); else one document per ID, each empty or really sent by its own source, empty
+   for the sources whose call failed, complete for well-behaved streams *)
+Definition fds_spec_ok (req : list ids) (calls : list (src * fcall)) (asked : list (src * list id)) (impl : fds_res) : bool :=
+  calls_cover req calls && asked_ok req calls asked
+  && match impl with
+     | FdErr => negb (is_nil calls) && forallb (fun c => is_ffail (snd c)) calls
+     | FdOk out =>
+         (is_nil calls || negb (forallb (fun c => is_ffail (snd c)) calls))
+         && docs_sound req (live calls) out
+         && forallb2 (fun k d => negb (memb Nat.eqb (snd k) (failed calls)) || N.eqb (snd d) 0) req out
+         && (negb (well_behaved req (live calls)) || docs_complete req (live calls) out)
+     end.
+
+Fixpoint nodup_N (l : list N) : bool :=
+  match l with [] => true | x :: r => negb (memb N.eqb x r) && nodup_N r end.
+(* histogram of a merged answer: exactly the expected keys, each with the expected count *)
+Definition hist_spec_ok (itv : N) (U : list id) (xs : list extra) (h : list (N * Z)) : bool :=
+  nodup_N (map fst h)
+  && forallb (fun k => Z.eqb (hlookup h k) (hist_spec itv U xs k)) (map fst h ++ hist_keys_spec itv U xs)
+  && forallb (fun k => memb N.eqb k (hist_keys_spec itv U xs)) (map fst h)
+  && forallb (fun k => memb N.eqb k (map fst h)) (hist_keys_spec itv U xs).
+
+(* the store each returned ID was fetched from (sources are not visible in an API response) *)
+Definition src_asked (asked : list (src * list id)) (i : id) : option src :=
+  match filter (fun a => memb id_eqb i (snd a)) asked with a :: _ => Some (fst a) | [] => None end.
+Fixpoint obs_req (asked : list (src * list id)) (l : list id) : option (list ids) :=
+  match l with
+  | [] => Some []
+  | i :: r =>
+      match src_asked asked i, obs_req asked r with
+      | Some s, Some t => Some ((i, s) :: t)
+      | _, _ => None
+      end
+  end.
+
+Definition apid_eqb (a b : apid) : bool :=
+  match a, b with
+  | DErr x, DErr y => gcode_eqb x y
+  | DOnlyError, DOnlyError => true
+  | DResp f c d t h, DResp f' c' d' t' h' =>
+      Bool.eqb f f' && ecode_eqb c c' && list_eqb (pair_eqb id_eqb N.eqb) d d' && Z.eqb t t'
+      && option_eqb hist_eqb h h'
+  | _, _ => false
+  end.
+
+(* model of the handler on the observed scheduling choice pp; the documents are assembled from the page
+   with the sources the stores were really asked for *)
+Definition page_agrees (q : areq) (hot hotread cold : list shard) (calls : list (src * fcall))
+           (asked : list (src * list id)) (impl : apid) (pp : bool * bool) : bool :=
+  if a_invalid q then apid_eqb (DErr GInvalidArgument) impl
+  else
+    match search isort (fst pp) (snd pp) hot hotread cold (Z.to_nat (a_off q)) (Z.to_nat (a_size q)) (a_rev q) (a_itv q) 0 with
+    | SErr ETooManyFrac => apid_eqb DOnlyError impl
+    | SErr EWantsOld => apid_eqb (DErr GInvalidArgument) impl
+    | SErr _ => apid_eqb (DErr GInternal) impl
+    | SOk p l x =>
+        match obs_req asked (map fst l) with
+        | Some l' => apid_eqb (api_finish q p l' x calls) impl
+        | None => false
+        end
+    end.
+
+(* the response the property allows: validation error; the error of the deciding tier; or exactly the
+   slice [offset, offset+size) of the duplicate-free union in response order with aligned documents,
+   Total of the whole result (not of the page), partial flag and code of the deciding tier *)
+Definition page_allowed (q : areq) (hot hotread cold : list shard) (calls : list (src * fcall))
+           (asked : list (src * list id)) (impl : apid) (pp : bool * bool) : bool :=
+  if a_invalid q then match impl with DErr GInvalidArgument => true | _ => false end
+  else
+    let off := Z.to_nat (a_off q) in
+    let size := Z.to_nat (a_size q) in
+    match verdict_of (fst pp) (snd pp) hot hotread cold, impl with
+    | VErr ETooManyFrac, DOnlyError => true
+    | VErr EWantsOld, DErr GInvalidArgument => true
+    | VErr EOther, DErr GInternal => true
+    | VOk p qs xs, DResp flag code docs total hist =>
+        let U := flat_map snd qs in
+        Bool.eqb flag p && ecode_eqb code (if p then CPartial else CNo)
+        && (p || Nat.eqb (errs_spec xs) 0)
+        && page_ok (a_rev q) U off size (map fst docs)
+        && Z.eqb total (to_int64 (total_spec U xs))
+        && match a_hist q, hist with
+           | None, None => true
+           | Some itv, Some h => hist_spec_ok itv U xs h
+           | _, _ => false
+           end
+        && match obs_req asked (map fst docs) with
+           | None => false
+           | Some req =>
+               let out := combine req (map snd docs) in
+               sources_ok qs req && calls_cover req calls && asked_ok req calls asked
+               && (is_nil req || negb (forallb (fun c => is_ffail (snd c)) calls))
+               && docs_sound req (live calls) out
+               && forallb2 (fun k d => negb (memb Nat.eqb (snd k) (failed calls)) || N.eqb (snd d) 0) req out
+               && (negb (well_behaved req (live calls)) || docs_complete req (live calls) out)
+           end
+    | VOk p qs xs, DErr GInternal =>
+        let U := flat_map snd qs in
+        (negb p && negb (Nat.eqb (errs_spec xs) 0))
+        || (existsb (fun u => in_page off size (rank (a_rev q) U u)) U
+            && negb (is_nil calls) && forallb (fun c => is_ffail (snd c)) calls)
+    | _, _ => false
+    end.
+
 (* ------------------------------------------------------------------ cases *)
 Inductive fres := FPanic | FOk (out : list doc).
 
@@ -257,7 +386,19 @@ Inductive case :=
 (* Ingestor.Documents: requested IDs, all sources, streams (call order), documents read *)
 | CDocs (orig : list id) (srcs : list src) (streams : list (src * list sdoc)) (impl : fres)
 (* the hot store's refusal predicate: impl = earlierThanOldestFrac(from) with OldestCT = oldest *)
-| CRefuse (oldest from : N) (impl : bool).
+| CRefuse (oldest from : N) (impl : bool)
+(* one FetchDocsStream with every Fetch call it made (in call order: what the call did, which IDs it
+   was asked for) and the result: an error, or the documents read *)
+| CFds (req : list ids) (calls : list (src * fcall)) (asked : list (src * list id)) (impl : fds_res)
+(* the all-calls-failed decision alone (Ingestor.Documents, where the expanded request is not observable) *)
+| CFdsErr (calls : list (src * fcall)) (impl_err : bool)
+(* seq.MergeQPRs called directly, as Ingestor.Search calls it: answers (IDs, rest), limit -> merged IDs, rest *)
+| CMerge (rev : bool) (itv : N) (limit naggs : nat) (qs : list (src * list id)) (xs : list extra)
+         (impl_ids : list ids) (impl : extra)
+(* the real proxyapi Search / ComplexSearch handler, whole response: documents (id, payload tag) in
+   response order, total (int64), flag, code, histogram *)
+| CPage (q : areq) (hot hotread cold : list shard) (calls : list (src * fcall)) (asked : list (src * list id))
+        (impl : apid).
 
 Definition sres_agrees (m impl : sres) : bool :=
   match m, impl with
@@ -302,6 +443,20 @@ Definition case_agrees (c : case) : bool :=
               && list_eqb Bool.eqb (map is_empty m) (map is_empty out))
       end
   | CRefuse oldest from impl => Bool.eqb (earlier_than_oldest oldest from) impl
+  | CFds req calls asked impl =>
+      calls_valid req calls
+      && list_eqb asked_eqb asked (map (fun c => (fst c, map fst (group req (fst c)))) calls)
+      && match fds req calls, impl with
+         | FdErr, FdErr => true
+         | FdOk m, FdOk out => list_eqb doc_eqb m out
+         | _, _ => false
+         end
+  | CFdsErr calls impl => Bool.eqb (fds_fails calls) impl
+  | CMerge rev itv limit naggs qs xs impl_ids impl =>
+      list_eqb id_eqb (map fst (merge_qprs isort qs limit rev)) (map fst impl_ids)
+      && extra_eqb (merge_rest isort qs xs rev itv naggs) impl
+  | CPage q hot hotread cold calls asked impl =>
+      existsb (page_agrees q hot hotread cold calls asked impl) bools2
   end.
 
 (* implementation output satisfies the property *)
@@ -328,6 +483,14 @@ Definition case_spec_ok (c : case) : bool :=
   | CRefuse oldest from impl =>
       (* refuses exactly the ranges that start before the oldest stored fraction (or when nothing is stored) *)
       Bool.eqb impl (N.eqb oldest 0 || N.ltb from oldest)
+  | CFds req calls asked impl => fds_spec_ok req calls asked impl
+  | CFdsErr calls impl => Bool.eqb impl (negb (is_nil calls) && forallb (fun c => is_ffail (snd c)) calls)
+  | CMerge rev itv limit naggs qs xs impl_ids impl =>
+      page_ok rev (flat_map snd qs) 0 limit (map fst impl_ids) && sources_ok qs impl_ids
+      && rest_spec_ok rev itv naggs qs xs impl
+      && nodup_N (map fst (x_hist impl))
+  | CPage q hot hotread cold calls asked impl =>
+      existsb (page_allowed q hot hotread cold calls asked impl) bools2
   end.
 
 Definition diff_indices (l : list case) : list nat := bad_indices (fun c => negb (case_agrees c)) l.
